@@ -459,6 +459,35 @@ def local_decls(fd):
     return params, out
 
 
+def separate_shadows(fd):
+    """A block-scope variable with the name of a PARAMETER of the same function (e.g. `int level;` inside a loop of a function
+    taking `orc_uint32 level`) is a different object: rename it (declaration and its dk == "local" references) so that facts
+    about the parameter are not killed by assignments to the inner variable."""
+    params = {p.get("name") for p in fd.get("params", []) if p.get("name")}
+    if not params or not fd.get("body") or fd.get("_shadows_done"):
+        return
+    fd["_shadows_done"] = True
+    hit = set()
+    st = [fd.get("body")]
+    nodes = []
+    while st:
+        n = st.pop()
+        if not isinstance(n, dict):
+            continue
+        nodes.append(n)
+        if n.get("k") == "VarDecl" and n.get("dk") not in ("global", "param") and n.get("name") in params:
+            hit.add(n["name"])
+        for ch in n.get("c", []):
+            st.append(ch)
+    if not hit:
+        return
+    for n in nodes:
+        if n.get("k") == "VarDecl" and n.get("dk") not in ("global", "param") and n.get("name") in hit:
+            n["name"] = n["name"] + "__inner"
+        elif n.get("k") == "DeclRefExpr" and n.get("dk") == "local" and n.get("name") in hit:
+            n["name"] = n["name"] + "__inner"
+
+
 def _load_localnames():
     global _LOCALNAMES
     if _LOCALNAMES is None:
@@ -536,6 +565,7 @@ class TU:
         self.functions = []
         self.fn = {}
         for fd in d["functions"]:
+            separate_shadows(fd)
             normalise_locals(fd)
             f = Func(fd, self)
             self.functions.append(f)
